@@ -47,6 +47,19 @@ def extra(uni, tier, seed):
     wl = {("teaal/parse/equation.py", "ranks.children")}
     bad = structural.attr_stores_not_on_self(wl)
     out.append(Extra("structural/encapsulation: every attribute store is on self", not bad, "; ".join(bad[:5])))
+    # the persistent state of the objects shared across Einsums is exactly the declared one: a field that is not
+    # in the sidecar is new cross-Einsum state nobody resets
+    for rel, cname in (("teaal/ir/tensor.py", "Tensor"), ("teaal/ir/program.py", "Program"),
+                       ("teaal/trans/utils.py", "TransUtils")):
+        have = set()
+        for fn in extract.module(rel).methods(cname):
+            for n in ast.walk(fn):
+                if isinstance(n, ast.Attribute) and isinstance(n.value, ast.Name) and n.value.id == "self" \
+                        and isinstance(n.ctx, ast.Store):
+                    have.add(n.attr)
+        extra_f = sorted(f for f in have if f not in uni.obj_classes[cname])
+        out.append(Extra("frame/persistent state of %s is the declared one" % cname, not extra_f,
+                         "fields not covered by Fresh/reset contracts: %s" % extra_f))
     # every Tensor/Program/TransUtils method that writes a field is under (verified) contract
     for rel, cname in (("teaal/ir/tensor.py", "Tensor"), ("teaal/ir/program.py", "Program"),
                        ("teaal/trans/utils.py", "TransUtils")):
@@ -107,14 +120,40 @@ def extra(uni, tier, seed):
 
 
 def refute(uni, ob, replay_dir):
-    return common.native_refute(uni, _sidecars(), ob, replay_dir)
+    w = common.native_refute(uni, _sidecars(), ob, replay_dir)
+    if w is None:
+        # the statement itself on the real compiler: a cascade whose i-th Einsum differs from stand-alone compilation
+        from props import cascade
+        ev, dist, fails, _ = cascade.sweep(2)
+        if fails:
+            w = dict(fails[0]["witness"])
+            w["how"] = "cascade compiled by the real HiFiber vs stand-alone compilation (tmp renumbered)"
+    return w
+
+
+def refute_extra(uni, e):
+    from props import cascade
+    ev, dist, fails, _ = cascade.sweep(2)
+    if fails:
+        w = dict(fails[0]["witness"])
+        w["how"] = "cascade compiled by the real HiFiber vs stand-alone compilation (tmp renumbered)"
+        return w
+    return None
 
 
 def bounded(uni, tier, seed):
+    from props import cascade
     if tier != "thorough":
-        return None
-    ev, failures, per = common.native_sweep(uni, _sidecars(), TARGETS)
-    return {"evaluations": ev, "distinct_nontrivial": ev, "failures": failures,
-            "rule": "native run of every sidecar generator input through the real function with the contract "
-                    "evaluated by CPython (assumption monitor for the encoding; bounded, not counted as proved)",
-            "samples": [{"function": k, "inputs": v} for k, v in list(per.items())[:5]]}
+        ev, dist, fails, samples = cascade.sweep(2, stride=5, offset=seed % 5)
+        return {"evaluations": ev, "distinct_nontrivial": dist, "failures": fails, "samples": samples,
+                "rule": "every 5th 2-Einsum cascade of props/cascade.py (6 Einsum shapes x mapping variants x 2 "
+                        "rank orders): text added by Einsum i == its stand-alone compilation up to tmp numbering "
+                        "(bounded; not counted as proved)"}
+    ev, dist, fails, samples = cascade.sweep(2)
+    ev3, dist3, fails3, _ = cascade.sweep(3, stride=97, offset=seed % 97)
+    nev, nfail, per = common.native_sweep(uni, _sidecars(), TARGETS)
+    return {"evaluations": ev + ev3 + nev, "distinct_nontrivial": dist + dist3, "failures": fails + fails3 + nfail,
+            "samples": samples,
+            "rule": "all 2-Einsum cascades and every 97th 3-Einsum cascade of props/cascade.py vs stand-alone "
+                    "compilation; plus every sidecar generator input through the real functions with the contracts "
+                    "evaluated natively (bounded; not counted as proved)"}
